@@ -59,6 +59,9 @@ def scenario(g, i):
          "c": (f"é☃ {s} + {s}, {c} and {p}; {s}\r\n" + f"{s}{'' if i % 3 else ' '}x {s}\n" + f"\t{p}({s}, {c})\n" + f"plain line\nlast {s} {s}").encode()},
         {"p": "crlf.txt", "k": "f", "m": 0o644, "c": (f"{s} a {s}\r\nb\r\n{c}\r\n").encode()},
     ]
+    # a byte-order mark, no-break and zero-width spaces at the start of a line with several matches: anything that "tidies"
+    # the displayed line shifts it against the recorded columns
+    tree.append({"p": "bom.txt", "k": "f", "m": 0o644, "c": (f"\ufeff{s} = Acme.{s}.Core + {c};\n\u00a0{s} {s}\n\u200b{p} {s} \n  {s}  {s}  \n").encode()})
     if i % 4 == 0:
         tree.append({"p": "long.txt", "k": "f", "m": 0o644, "c": (("é" * 400) + f" {s} " + ("y" * 900) + f" {s} {c}\n").encode()})
     repl = gen.render(b + (a[:1] if long_rep else []), "Snake") if i % 5 else gen.render(b[:1], "Snake")
